@@ -139,6 +139,8 @@ bool FeatureChecker::isRateDisallowedInSymbolic(const expression_t& e)
 
         if (rate.get_kind() != Constants::CONSTANT)
             return false;
+        if (rate.get_type().is_double())  // get_value() is for integral constants only
+            return rate.get_double_value() != 0.0 && rate.get_double_value() != 1.0;
         if (rate.get_value() != 0 && rate.get_value() != 1)
             return true;  // NOLINT(readability-simplify-boolean-expr)
 
